@@ -40,7 +40,7 @@ func c15Payload(c c15Case) []byte {
 	case "text":
 		pat := []byte("row-key-0001:cf:qualifier=value;")
 		for i := range out {
-			out[i] = pat[(i+int(c.Seed))%len(pat)]
+			out[i] = pat[int((uint64(i)+uint64(c.Seed))%uint64(len(pat)))]
 		}
 	case "random":
 		for i := range out {
